@@ -5,10 +5,13 @@ Correspondence: functor expressions of the property's grammar are rendered both 
 and as driver input (`sigc_model visit`); compared are (R) what `visit_each_trackable` reaches on the stored
 functor, (A) `slot.empty()` / `signal.size()` after each trackable of the case is destroyed first, (B) the
 behaviour when slot and signal are destroyed first and the trackables afterwards.
-Bound arguments of bind / bind<I> / bind_return are plain values, std::ref / std::cref, by-value objects and
-*functor expressions bound by value* (`fun<r><n> <expr>`: mem_fun functors, slots, make_slot functors, adaptor
-expressions), at every position of the bound tuple; the statement side counts what such a functor refers to as
-referred to by the whole expression.
+Bound arguments of bind / bind<I> / bind_return are plain values, std::ref / std::cref, by-value objects,
+objects bound with an *explicitly spelled reference type* (`xref` / `xcref`: `sigc::bind_return<T&>(f, obj)`,
+`sigc::bind<I, F, …, const T&, …>(f, …, obj, …)`, `sigc::bind<F, T&>(f, obj)` — bound_argument<T&> keeps a reference to
+the object itself and its visitor hands the object to the action with its own, derived, type instead of through a
+limit_reference) and *functor expressions bound by value* (`fun<r><n> <expr>`: mem_fun functors, slots, make_slot
+functors, adaptor expressions), at every position of the bound tuple; the statement side counts an explicitly
+referenced object, and what a bound functor refers to, as referred to by the whole expression.
 """
 import glob
 import json
@@ -29,12 +32,12 @@ LEVEL = "proof"
 MODULE = "Sigc.Props.C09"
 REQUIRED = ["Sigc.C09.visited_eq_referenced", "Sigc.C09.visitedAll_eq_referenced", "Sigc.C09.ties_all",
             "Sigc.C09.no_trace", "Sigc.C09.f1_witness", "Sigc.C09.scan_perm_referenced", "Sigc.C09.bound_perm_refs",
-            "Sigc.C09.bound_leaf_witness"]
+            "Sigc.C09.bound_leaf_witness", "Sigc.C09.by_type_dropped_witness"]
 PARTIAL = []
 TRUSTED = [
     "Lean 4 kernel (axioms per theorem as audited: propext, Quot.sound, Classical.choice only)",
     "hand-written model lean/Sigc/Visit.lean: FExpr grammar, the visitor table `codeTable` (one row per "
-    "sigc::visitor<> specialisation), `scan`, `Rep.invalidatedBy` (parent chain), callback list add/remove; tied to "
+    "sigc::visitor<> specialisation, one for the overload set of slot_do_bind/slot_do_unbind), `scan`, `Rep.invalidatedBy` (parent chain), callback list add/remove; tied to "
     "/repo only by the correspondence below (differential, bounded by what the generator reaches)",
     "the invalidation cascade (~trackable -> notify_slot_rep_invalidated -> disconnect -> parent) is abstracted as "
     "`Rep.invalidatedBy`; its heap-level mechanism belongs to the protocol model (C02)",
@@ -48,8 +51,9 @@ ASSUMPTIONS = [
     "— the user's obligation; they are never chosen as victims",
     "the slot is made from the expression while all referenced objects are alive",
 ]
-EXPLANATION = ("theorems quantify over all expressions (bound arguments: values, std::ref/cref, by-value objects, functor "
-               "expressions bound by value); the correspondence samples/enumerates expressions up to depth 3 "
+EXPLANATION = ("theorems quantify over all expressions (bound arguments: values, std::ref/cref, by-value objects, objects "
+               "bound with an explicitly spelled reference type T& / const T&, functor expressions bound by value); the "
+               "correspondence samples/enumerates expressions up to depth 3 "
                "with 1-3 trackables (+ optional untracked object, + signals for make_slot)")
 
 CXXFLAGS = ["-std=c++17", "-O0", "-g1", "-fsanitize=address", "-fno-omit-frame-pointer",
@@ -450,12 +454,16 @@ def malformed_stream(rng, n):
           ("V0", ["1D", "2U"], ("bind", 0, ("L", "V"), (("fun", "V", 0, ("M", "V", 0, "u2")),))),
           ("V0", ["1D"], ("bind", None, ("G", "V", "V", 0),
                           (("fun", "V", 0, ("bind", None, ("L", "V"), (("copy", "d1"),))),))),
-          ("V0", ["1V"], ("hret", ("bret", ("L", "V"), ("fun", "V", 0, ("slot", "V", 0, ("L", "V"))))))]
+          ("V0", ["1V"], ("hret", ("bret", ("L", "V"), ("fun", "V", 0, ("slot", "V", 0, ("L", "V")))))),
+          # explicit reference types that refer to nothing tracked: an untracked object as U& / const U&
+          ("V0", ["1D", "2U"], ("hret", ("bret", ("L", "V"), ("xref", "u2")))),
+          ("V0", ["1V", "2U"], ("bind", 0, ("L", "V"), (("xcref", "u2"), ("copy", "v1"), ("xref", "u2"))))]
     return [c for c in cs if G.case_ok(*c)][:n]
 
 
 BAD_LINES = ["bind 0 2 leaf ref d1", "mf x1", "", "slot", "to 1 leaf", "c2 leaf leaf", "bind Q 1 leaf val",
-             "leaf leaf", "hide L", "bind L 1 leaf fun", "bret leaf fun", "bind L 1 leaf fun val", "fun leaf"]
+             "leaf leaf", "hide L", "bind L 1 leaf fun", "bret leaf fun", "bind L 1 leaf fun val", "fun leaf",
+             "bret leaf xref", "bind L 1 leaf xref x1", "bind 0 2 leaf xcref d1", "xref d1"]
 
 
 # ------------------------------------------------------------------------------------------------
@@ -470,7 +478,11 @@ def distribution(cases):
          "bound_arg_kinds": Counter(), "untracked_referenced": 0, "by_value_copy": 0,
          "cases_with_bound_functor": 0, "cases_with_bound_functor_referring_to_trackable": 0,
          "bound_functor_root": Counter(), "bound_functor_place": Counter(), "bound_functor_nested_in_bound_functor": 0,
-         "slot_parameter_targets": 0}
+         "slot_parameter_targets": 0,
+         "cases_with_explicit_reference_bound": 0, "cases_with_explicit_reference_to_trackable": 0,
+         "explicit_reference_place": Counter(), "explicit_reference_spelling": Counter(),
+         "explicit_reference_object_class": Counter(), "explicit_reference_nested_in_bound_functor": 0,
+         "explicit_reference_below_other_adaptor": 0}
     for cid, sig, pool, node in cases:
         d["depth"][str(G.depth(node))] += 1
         ks = G.kinds(node)
@@ -502,6 +514,20 @@ def distribution(cases):
             if inside:
                 d["bound_functor_nested_in_bound_functor"] += 1
         d["slot_parameter_targets"] += sum(1 for x in ks if x in ("G", "H"))
+        bx = G.bound_xrefs(node)
+        if bx:
+            d["cases_with_explicit_reference_bound"] += 1
+            if any(G.is_trackable_obj(o) for _, _, _, _, _, o, _ in bx):
+                d["cases_with_explicit_reference_to_trackable"] += 1
+            if node[0] not in ("bind", "bret") or any(x[6] for x in bx):
+                d["explicit_reference_below_other_adaptor"] += 1
+        for holder, i, k, pos, kind, o, inside in bx:
+            d["explicit_reference_place"]["bind_return" if holder == "bret" else
+                                          "bind%s arg %d of %d" % ("" if pos is None else "<I>", i + 1, k)] += 1
+            d["explicit_reference_spelling"]["T&" if kind == "xref" else "const T&"] += 1
+            d["explicit_reference_object_class"][{"d": "direct", "v": "virtual base", "u": "untracked"}[o[0]]] += 1
+            if inside:
+                d["explicit_reference_nested_in_bound_functor"] += 1
 
         def walk(n):
             if n[0] == "bind":
@@ -525,11 +551,11 @@ def correspondence(ctx):
             stream.append(("corpus",) + c)
     except Exception as ex:   # noqa: BLE001
         infra.append("corpus: %s" % ex)
-    for c in malformed_stream(rng, 11):
+    for c in malformed_stream(rng, 13):
         stream.append(("edge",) + c)
     enum_total = None
     if ctx.thorough:
-        en, enum_total = enumerated_cases(rng, 4200)
+        en, enum_total = enumerated_cases(rng, 5000)
         for c in en:
             stream.append(("enum",) + c)
         n_random = 300
